@@ -32,6 +32,16 @@ func cmdRot(args []string) {
 			ws = append(ws, genWarrior(r, cfg.M, r.Intn(2) == 0))
 			offs = append(offs, r.Intn(cfg.M))
 		}
+		if nw > 1 && r.Intn(12) == 0 {
+			ws[nw-1] = wdata{nil, 0} // a warrior without instructions (a source of comments only): it starts on whatever lies at its offset
+		}
+		if b%97 == 5 {
+			// a core beyond 16-bit addresses, warriors placed at its far end
+			cfg = simCfg{M: 70000, P: 2, C: 3, RL: 70000, WL: 70000}
+			for i := range offs {
+				offs[i] = 1000 + 40*i
+			}
+		}
 		a, la := runRecorded(r, cfg, ws, offs, st)
 		for _, l := range la {
 			w.line(l)
@@ -42,6 +52,9 @@ func cmdRot(args []string) {
 		}
 		// shifts: 1, M-len, M-1, random
 		ks := []int{1, cfg.M - len(ws[0].code), cfg.M - 1, r.Intn(cfg.M)}
+		if cfg.M == 70000 {
+			ks = []int{65000, 1}
+		}
 		for idx, k := range ks[:1+r.Intn(len(ks))] {
 			k = norm(k, cfg.M)
 			j := r.Intn(4)
